@@ -184,6 +184,18 @@ def check(case, st):
                 st.violation('out-of-range-port-but-connection-made:%s' % tag, dict(d, connects=connects))
             if res.status in (0, 2, 3):
                 st.violation('out-of-range-port-not-rejected:%s' % tag, dict(d, stdout=res.stdout[-200:]))
+            # the rejection is reported under the entry as written (a targets-file run names the entry it is about)
+            if src.startswith('file') and port is not None and not 1 <= port <= 65535:
+                if fmt == 'json':
+                    try:
+                        els = json.loads(res.stdout)
+                        labels = [str(e.get('target')) for e in els if isinstance(e, dict) and 'error' in e] if isinstance(els, list) else []
+                    except ValueError:
+                        labels = None
+                    if labels is not None and not any(l.endswith(':%d' % port) for l in labels):
+                        st.violation('out-of-range-port:error-labelled-with-another-port:%s' % tag, dict(d, labels=labels, entry_port=port))
+                elif (':%d' % port) not in res.stdout:
+                    st.violation('out-of-range-port:error-labelled-with-another-port:%s' % tag, dict(d, entry_port=port, stdout=res.stdout[-300:]))
             continue
         pref = family_pref(fam)
         want_family = {(): 0, (4,): V4, (6,): V6}.get(tuple(pref), 0)
